@@ -10,6 +10,10 @@ argument untouched (deep fingerprint of the AST before/after).
 """
 import copy
 import json
+import sys
+import subprocess
+import re
+import hashlib
 import os
 
 import vlib
@@ -231,11 +235,48 @@ def replay(ctx, proj, findings):
         wd.leave()
 
 
+
+# --- the text engine's erasure (Lemmas/ContentErase.lean) mirrors the validator engine's (Model/Value.lean, Model/Doc.lean) ---------
+# The two ASTs live in separate lake projects, so `C09_respell_invariant` (text engine) takes "validate is a function of content" as the
+# hypothesis `hcontent`, which the validator engine proves (`C09_congr`, `C09_content_normal`) for ITS `Doc.content`.  That the two
+# erasures erase the same things was established by reading them side by side; both sides are pinned here so that an edit to either
+# one breaks the tie (audit problem) until the mirror has been re-read and the pin renewed.
+ERASE_MIRROR_PIN = "cb12053cd650f83d"
+
+
+def _ws(s):
+    return re.sub(r"\s+", " ", s).strip()
+
+
+def erase_mirror_digest():
+    vdoc = open(os.path.join(vlib.VERIF, "lean", "validator", "Octave", "Model", "Doc.lean")).read()
+    vval = open(os.path.join(vlib.VERIF, "lean", "validator", "Octave", "Model", "Value.lean")).read()
+    tce = open(os.path.join(vlib.VERIF, "lean", "text", "Octave", "Lemmas", "ContentErase.lean")).read()
+    parts = []
+    i = vval.index("def erase : Val → Val"); parts.append(_ws(vval[i:vval.index("end", i)]))
+    i = vdoc.index("def erase : Node → Node"); parts.append(_ws(vdoc[i:vdoc.index("end", i)]))
+    i = vdoc.index("def erasePairs : List (Str × Val)"); parts.append(_ws(vdoc[i:vdoc.index("def skeleton (d : Doc)", i)]))
+    for m in re.finditer(r"-- BEGIN COPY (.*?)\n(.*?)-- END COPY", tce, re.S):
+        parts.append(_ws(m.group(2)))
+    i = tce.index("namespace MetaVal"); parts.append(_ws(tce[i:tce.index("end MetaVal", i)]))
+    return hashlib.sha256("|".join(parts).encode()).hexdigest()[:16]
+
 def run(ctx: vlib.Ctx):
     ctx.rule = ("case = (schema, instance tree); each case is observed through T0, k respellings, canonical, canonical-of-canonical x "
                 "{Validator API strict/non-strict, octave_validate x 4 profiles, octave_write lenient/strict dry-run, CLI (thorough)}; "
                 "instances: every hand schema x every field x every perturbation of that field (text-safe), plus seeded random instances of "
                 "hand and random schemas; non-trivial = the instance contains the schema's block; distinct = distinct (schema, tree)")
+    # the respelling clause: two spellings of one document are read as documents with the SAME CONTENT (text engine, every document of
+    # the flat / tree / indentation / list-layout / alias / multi-word families), composed with an abstract content-only validator
+    # (the text translator re-imports octave_mcp freshly, which would split class identities under this module's harness: run it apart)
+    tr = subprocess.run([sys.executable, os.path.join(str(vlib.VERIF), "tools", "translate.py"), "text"], capture_output=True, text=True, env=dict(os.environ))
+    if tr.returncode != 0 or not tr.stdout.strip().endswith(", [])"):
+        ctx.broken.append({"file": "tools/translate.py", "line": 0, "decl": "translator text", "msg": (tr.stdout + tr.stderr)[-300:]})
+    ctx.lean("text", ["Octave.Props.C09respell"], extra_targets=())
+    dg = erase_mirror_digest()
+    if dg != ERASE_MIRROR_PIN:
+        ctx.audit_problems.append(f"the erasure of the text engine (Lemmas/ContentErase.lean) or of the validator engine (Model/Value.lean, Model/Doc.lean) "
+                                  f"changed (digest {dg}, pinned {ERASE_MIRROR_PIN}): the mirror must be re-read before C09_respell_invariant composes with C09_congr")
     ctx.translate(PROJECT)
     proj = ctx.lean(PROJECT, PROPS)
     if vlib.fingerprints_changed(ctx.prop, ANCHORS):
